@@ -1,6 +1,6 @@
 use super::{builder::FileLogWriterBuilder, config::FileLogWriterConfig, state::State};
 #[cfg(feature = "async")]
-use crate::util::{ASYNC_FLUSH, ASYNC_SHUTDOWN};
+use crate::util::{ASYNC_DATA, ASYNC_FLUSH, ASYNC_SHUTDOWN};
 use crate::{
     util::{buffer_with, eprint_err, io_err, ErrorCode},
     LogfileSelector, ZERO_DURATION,
@@ -113,6 +113,7 @@ impl AsyncHandle {
         #[cfg(flexi_logger_verif)]
         crate::verif_hooks::sync_op(crate::verif_hooks::Op::Point("flw_pool_pop"));
         let mut buffer = self.pop_buffer();
+        buffer.push(ASYNC_DATA);
         (self.format_function)(&mut buffer, now, record).inspect_err(|e| {
             eprint_err(ErrorCode::Format, "formatting failed", &e);
         })?;
@@ -192,9 +193,12 @@ impl StateHandle {
             StateHandle::Async(handle) => {
                 #[cfg(flexi_logger_verif)]
                 crate::verif_hooks::sync_op(crate::verif_hooks::Op::Send("flw_chan", self.vh_id()));
+                let mut message = Vec::with_capacity(buffer.len() + 1);
+                message.push(ASYNC_DATA);
+                message.extend_from_slice(buffer);
                 handle
                     .sender
-                    .send(buffer.to_owned())
+                    .send(message)
                     .map_err(|_e| io_err("Send"))?;
                 Ok(buffer.len())
             }
